@@ -309,8 +309,8 @@ func runHistory(protocol int, hasBackend bool, ops []op) []stepObs {
 // ---- generation ----
 
 var (
-	legacyProtos    = []int{47, 340, 578, 754}           // 1.8, 1.12.2, 1.15.2, 1.16.4
-	legacy117Protos = []int{755, 759, 762, 764}          // 1.17, 1.19, 1.19.4, 1.20.2
+	legacyProtos    = []int{47, 340, 578, 754}            // 1.8, 1.12.2, 1.15.2, 1.16.4
+	legacy117Protos = []int{755, 759, 762, 764}           // 1.17, 1.19, 1.19.4, 1.20.2
 	modernProtos    = []int{765, 766, 767, 769, 772, 774} // 1.20.3 .. 1.21.11
 )
 
